@@ -19,7 +19,8 @@ DEFAULT = {
 }
 
 ERRS = ['ValueError', 'RuntimeError', 'TypeError', 'ZeroDivisionError', 'vfail.CustomError',
-        'pypyr.errors.ContextError', 'vfail.InnerError']
+        'pypyr.errors.ContextError', 'vfail.InnerError',
+        'pypyr.errors.MultiError']      # without child errors its instances are FALSY (len 0)
 HALF = {'f': [1, 2]}
 DICT_IN_KEYS = ['flag', 'nflag', 'sflag', 'n', 'lst', 'empty', 'cnt', 'grp', 'word', 'tup']
 
@@ -164,6 +165,15 @@ def gen_retry(rng):
              'backoff': rng.choice(['linearjitter', 'exponentialjitter', 'jitter', 'linear', 'exponential']),
              'jrc': rng.choice([{'f': [3, 4]}, {'f': [7, 8]}, HALF, 1]),   # dyadic: exact in binary floating point
              'sleepMax': rng.choice([1, 2, {'f': [5, 2]}, 4])}
+    if rng.random() < 0.08:
+        # a DECAYING exponential schedule (base < 1) under a cap: the cap applies to each duration, the
+        # schedule comes back under it
+        r = {'max': rng.choice([4, 5, 6]), 'sleep': rng.choice([8, 4, 16]),
+             'backoff': rng.choice(['exponential', 'exponential', 'exponentialjitter']),
+             'sleepMax': rng.choice([3, 2, {'f': [5, 2]}]),
+             'backoffArgs': {'d': [['base', rng.choice([HALF, {'f': [1, 4]}])]]}}
+        if r['backoff'] == 'exponentialjitter':
+            r['jrc'] = rng.choice([HALF, 1])
     if rng.random() < 0.25:
         r['stopOn'] = {'l': rng.sample(ERRS, rng.randrange(1, 3))}
     if rng.random() < 0.25:
@@ -552,7 +562,9 @@ def handler_jumps(rng, case):
         target.append({'body': end, 'in': [['ptag', 'main/hjt/1']]})
     target.append({'body': 'probe', 'in': [['ptag', 'main/hjt/2']]})
     handler = [{'body': 'probe', 'in': [['ptag', 'main/hj/0']]},
-               {'body': 'jump', 'in': [['ptag', 'main/hj/1'], ['jump', rng.choice(['hjt', {'l': ['hjt']}, {'d': [['groups', {'l': ['hjt']}]]}])]]},
+               {'body': 'jump', 'in': [['ptag', 'main/hj/1'], ['jump', rng.choice(['hjt', {'l': ['hjt']}, {'d': [['groups', {'l': ['hjt']}]]},
+                                                                             {'l': ['hjt', 'gz']}, {'l': ['hjt', 'gz']},
+                                                                             {'d': [['groups', {'l': ['hjt', 'gz']}]]}])]]},
                {'body': 'probe', 'in': [['ptag', 'main/hj/2']]}]
     failing = [{'body': 'probe', 'in': [['ptag', 'main/hjb/0']]},
                {'body': 'fail', 'in': [['ptag', 'main/hjb/1'], ['vfail', {'d': [['err', 'ValueError'], ['msg', 'boom']]}]]}]
